@@ -11,7 +11,7 @@ def main():
     if rp.get('kind') == 'socket':
         from . import ircreplay
         sys.exit(ircreplay.replay_file(pid, f))
-    if rp.get('kind') in ('timer', 'config', 'live'):
+    if rp.get('kind') in ('timer', 'config', 'live', 'period'):
         import importlib
         mod = importlib.import_module('props.' + pid)
         run = CheckRun(pid, 'quick', 0).prepare(('dev',))
